@@ -708,8 +708,17 @@ def run(ck):
                      {"material_property": m.name, "symbol": name, "emitted": val, "mfront_file": m.text})
 
     # ---- (ii) run level
+    # libraries: the first behaviours, plus behaviours whose generated source differs from the model (so that the difference
+    # can be observed through the manager too)
+    compiled = list(progs[:nb_lib])
+    extra = []
+    for key, (kind, what, rep) in sorted(groups.items()):
+        bn = rep.get("behaviour")
+        if kind == "text" and bn and bn not in [x.name for x in compiled + extra]:
+            extra.append([x for x in progs if x.name == bn][0])
+    compiled += extra[:(1 if ck.quick else 4)]
     jobs = []
-    for b in progs[:nb_lib]:
+    for b in compiled:
         jobs.append(("libC45_%s.so" % b.name, [os.path.join(gendir, "src", "%s-generic.cxx" % b.f), os.path.join(gendir, "src", "%s.cxx" % b.f)]))
     tu = ck.write("c45_mp_tu.cxx", "".join('#include "%s"\n' % os.path.join(gendir, "src", "%s-generic.cxx" % x)
                                            for x in [m.f for m in mps] + [(m.material + "_" if m.material else "") + t for (m, _, _, t) in twins]))
@@ -734,7 +743,7 @@ def run(ck):
         expect.append(exp)
         meta.append((what, rep, var, persistent))
     lean_q, lean_idx = [], []
-    for b in progs[:nb_lib]:
+    for b in compiled:
         lib = libs.get("libC45_%s.so" % b.name)
         if not lib:
             continue
@@ -809,7 +818,7 @@ def run(ck):
         if g == exp:
             continue
         query = lines[i].split(None, 3)[3].strip()
-        rep = dict(rep, query=query, declared=show_answer(exp), library_answer=show_answer(g))
+        rep = dict(rep, query=query, declared=show_answer(exp), library_answer=show_answer(g), elm_what=what)
         if isinstance(var, tuple):          # setParameter against the twin law: differs when the twin's default was written with 14 digits
             cause = CAUSE_B if float("%.14g" % float(var[1])) != float(var[1]) else None
         else:
@@ -843,8 +852,20 @@ def run(ck):
     for m in mps[:4]:
         mfront_query_matprop(ck, m, gendir, note, hist, stats)
 
+    compat = {"types": ["types"], "names": ["names", "mp-names"], "bounds": ["bounds", "mp-bounds"], "physical-bounds": ["bounds", "mp-bounds"],
+              "bounds-array-element": ["bounds-array-element"], "physical-bounds-array-element": ["bounds-array-element"],
+              "parameter-default": ["default", "mp-default"]}
     for key, (kind, what, rep) in sorted(groups.items()):
-        ck.violation(key, what, rep, kind == "viol")
+        found = kind == "viol"
+        if kind == "text":
+            # a difference of the generated source is a failing input once the compiled library answers wrongly for the same item
+            cat = [c for c in compat if key.endswith(":" + c) or (":" + c + ":") in key]
+            cat = max(cat, key=len) if cat else None
+            wit = [r for (k2, w2, r) in groups.values() if k2 == "viol" and cat and r.get("elm_what") in compat[cat] and
+                   (r.get("behaviour"), r.get("material_property")) == (rep.get("behaviour"), rep.get("material_property"))]
+            if wit:
+                found, rep = True, dict(rep, failing_query=wit[0])
+        ck.violation(key, what, rep, found)
 
     ck.assumptions += [
         "M: Lean model of the symbol scheme (emit) and of the readers (read); compared with the MFRONT_EXPORT_* lines of the generated "
